@@ -18,6 +18,65 @@ EXPLANATION = (
     "decided: 32-bit truncation for lengths beyond INT_MAX; the identity beyond the grid is argued from the expression class "
     "(+,-,*,/,% by one alignment operand), not proved.")
 
+def rule_roundup(ctx, P):
+    cg = callgraph.get(P)
+    # ---------------- R08d
+    r = ctx.rule('R08d', 'round-up expressions equal ceil(len / a) * a on a grid covering every residue class; a = k * (w/8)',
+                 'an off-by-one in the rounding changes payload sizes exactly at multiples of the alignment')
+    grid_a = [1, 2, 3, 4, 5, 6, 7, 8, 10, 12, 16, 20, 24, 40, 64, 100, 128]
+    for fname, lenarg in (('get_aligned_data_size', 1), ('liberasurecode_get_aligned_data_size', 1)):
+        f = P.fn(fname)
+        C = Canon(P, f)
+        rets = [i for i in f.insts() if i.op == 'ret']
+        # opaque alignment operand: the divisor of the division(s) on the way
+        divs = [i for i in f.insts() if i.op in ('sdiv', 'udiv', 'srem', 'urem') and const_int(f, i.ops[1]) is None]
+        if not divs:
+            r.fail(f'{fname}: round-up', func=f.name, sig='no division by the alignment', loc=f.mod.src, msg='no rounding to a multiple of the alignment is performed')
+            continue
+        aval = strip_int_casts(f, divs[-1].ops[1])
+        ok_a, why = shared.divisor_ok(P, f, aval)
+        t = symex.tree(f, rets[0].ops[0], opaque={aval})
+        alts = [x for x in symex.alternatives(t) if x[0] not in ('c',)]
+        if not alts:
+            r.undecided(f'{fname}: round-up', msg='return value has no arithmetic alternative')
+            continue
+        inst = f'{fname}: aligned(len) == ceil(len/a)*a'
+        bad = None
+        nev = 0
+        for alt in alts:
+            lv = symex.leaves(alt)
+            unk = [l for l in lv if l not in (('p', lenarg), ('v', aval))]
+            if unk:
+                bad = ('undecided', f'expression has other inputs: {unk}')
+                break
+            for a in grid_a:
+                for ln in list(range(0, 4 * a + 3)) + [1000000, 1 << 20, (1 << 20) + 1]:
+                    nev += 1
+                    try:
+                        got = symex.evaluate(alt, {('p', lenarg): ln, ('v', aval): a})
+                    except ZeroDivisionError:
+                        bad = ('fail', f'division by zero for len={ln}, a={a}'); break
+                    want = -(-ln // a) * a
+                    if got != want:
+                        bad = ('fail', f'len={ln}, alignment={a}: expression gives {got}, smallest multiple >= len is {want}'); break
+                if bad:
+                    break
+            if bad:
+                break
+        ctx.extra.setdefault('R08d_grid_points', 0)
+        ctx.extra['R08d_grid_points'] += nev
+        if bad and bad[0] == 'undecided':
+            r.undecided(inst, loc=rets[0].loc, msg=bad[1])
+        elif bad:
+            r.fail(inst, func=f.name, sig='round-up wrong: ' + bad[1][:60], loc=divs[-1].loc, msg='the rounding expression is not the round-up to a multiple: ' + bad[1])
+        else:
+            r.ok(inst + f' ({nev} grid points)', func=f.name, loc=divs[-1].loc, facts={'alignment_operand': C.val(aval)})
+        if ok_a:
+            r.ok(f'{fname}: alignment operand is {why}', func=f.name, loc=divs[-1].loc)
+        else:
+            r.fail(f'{fname}: alignment operand', func=f.name, sig=f'alignment is {why}', loc=divs[-1].loc, msg=f'the alignment is {C.val(aval)}, not k * (word size in bytes)')
+    r.require_min(4)
+
 def run(ctx):
     P = ctx.program()
     cg = callgraph.get(P)
@@ -145,59 +204,4 @@ def run(ctx):
         r.fail('minimum encode size', func=f.name, sig=f'returns {sorted(rv)}', loc=f.mod.src, msg=f'minimum encode size is {sorted(rv)}, expected aligned(desc, 1)')
     r.require_min(1)
 
-    # ---------------- R08d
-    r = ctx.rule('R08d', 'round-up expressions equal ceil(len / a) * a on a grid covering every residue class; a = k * (w/8)',
-                 'an off-by-one in the rounding changes payload sizes exactly at multiples of the alignment')
-    grid_a = [1, 2, 3, 4, 5, 6, 7, 8, 10, 12, 16, 20, 24, 40, 64, 100, 128]
-    for fname, lenarg in (('get_aligned_data_size', 1), ('liberasurecode_get_aligned_data_size', 1)):
-        f = P.fn(fname)
-        C = Canon(P, f)
-        rets = [i for i in f.insts() if i.op == 'ret']
-        # opaque alignment operand: the divisor of the division(s) on the way
-        divs = [i for i in f.insts() if i.op in ('sdiv', 'udiv', 'srem', 'urem') and const_int(f, i.ops[1]) is None]
-        if not divs:
-            r.fail(f'{fname}: round-up', func=f.name, sig='no division by the alignment', loc=f.mod.src, msg='no rounding to a multiple of the alignment is performed')
-            continue
-        aval = strip_int_casts(f, divs[-1].ops[1])
-        ok_a, why = shared.divisor_ok(P, f, aval)
-        t = symex.tree(f, rets[0].ops[0], opaque={aval})
-        alts = [x for x in symex.alternatives(t) if x[0] not in ('c',)]
-        if not alts:
-            r.undecided(f'{fname}: round-up', msg='return value has no arithmetic alternative')
-            continue
-        inst = f'{fname}: aligned(len) == ceil(len/a)*a'
-        bad = None
-        nev = 0
-        for alt in alts:
-            lv = symex.leaves(alt)
-            unk = [l for l in lv if l not in (('p', lenarg), ('v', aval))]
-            if unk:
-                bad = ('undecided', f'expression has other inputs: {unk}')
-                break
-            for a in grid_a:
-                for ln in list(range(0, 4 * a + 3)) + [1000000, 1 << 20, (1 << 20) + 1]:
-                    nev += 1
-                    try:
-                        got = symex.evaluate(alt, {('p', lenarg): ln, ('v', aval): a})
-                    except ZeroDivisionError:
-                        bad = ('fail', f'division by zero for len={ln}, a={a}'); break
-                    want = -(-ln // a) * a
-                    if got != want:
-                        bad = ('fail', f'len={ln}, alignment={a}: expression gives {got}, smallest multiple >= len is {want}'); break
-                if bad:
-                    break
-            if bad:
-                break
-        ctx.extra.setdefault('R08d_grid_points', 0)
-        ctx.extra['R08d_grid_points'] += nev
-        if bad and bad[0] == 'undecided':
-            r.undecided(inst, loc=rets[0].loc, msg=bad[1])
-        elif bad:
-            r.fail(inst, func=f.name, sig='round-up wrong: ' + bad[1][:60], loc=divs[-1].loc, msg='the rounding expression is not the round-up to a multiple: ' + bad[1])
-        else:
-            r.ok(inst + f' ({nev} grid points)', func=f.name, loc=divs[-1].loc, facts={'alignment_operand': C.val(aval)})
-        if ok_a:
-            r.ok(f'{fname}: alignment operand is {why}', func=f.name, loc=divs[-1].loc)
-        else:
-            r.fail(f'{fname}: alignment operand', func=f.name, sig=f'alignment is {why}', loc=divs[-1].loc, msg=f'the alignment is {C.val(aval)}, not k * (word size in bytes)')
-    r.require_min(4)
+    rule_roundup(ctx, P)
